@@ -81,6 +81,10 @@ Definition argdefs := list (name * Values.in_def).
 Record schema := { types : list (name * named_type);          (* registry *)
                    query : name; mutation : option name; subscription : option name;
                    s_inputs : Values.env;                       (* the input types, C05's view *)
+                   s_dt : list (bytes * option bytes);
+                   (* C05's oracle for package apifu's DateTime: what time.Time.UnmarshalText says of
+                      each string offered to a DateTime position ([Some] canonical rendering / [None]
+                      not an RFC 3339 time), computed by the harness with the Go standard library *)
                    s_argdefs : list (name * list (name * argdefs)) }.
                    (* FieldDefinition.Arguments, by object type and field name; absent: none *)
 
